@@ -28,23 +28,66 @@ import (
 	inflationtypes "github.com/NibiruChain/nibiru/v2/x/inflation/types"
 )
 
+// one generation: the current chain is exported and a FRESH chain is started from the export
+type c20Gen struct {
+	IH     int `json:"ih"`     // initial height of the new genesis: 0 none (InitChain context height 0), 1 one (height 0 too), 2 the exported height, 3 exported height + 1000
+	Dt     int `json:"dt"`     // seconds between the last block of the exported chain and the new genesis time
+	Blocks int `json:"blocks"` // blocks run on the new chain before IT is exported (next generation); 0 = exported right away
+	Long   int `json:"long"`   // 0: 5 s blocks; 1: the first block is 31 minutes later (30-min epoch rolls over); 2: a day later
+}
+
 type c20Input struct {
 	Ops []c20Op `json:"ops"`
-	Dt  int     `json:"dt"` // seconds between the last block and the import time
+	Dt  int     `json:"dt"` // seconds between the last block and the import time (first generation when Gens is empty)
 	// EmptyWl: the chain's own genesis has an empty oracle whitelist (boundary of the theorem's
 	// hypothesis [wo'_pairs_nonempty]; not generated, replay only)
 	EmptyWl bool `json:"empty_wl,omitempty"`
+	// Gens: ITERATED round trips. Empty = one generation at the exported height (what every input meant before round 7).
+	Gens []c20Gen `json:"gens,omitempty"`
 }
 
-func c20Run(t *testing.T, in c20Input) (obs map[string]interface{}, extra map[string]interface{}) {
+// c20Run: the history on chain A, then generation after generation: dump + export the current chain, InitChain a fresh
+// app from the export, dump + export that one (one trace record per generation: the full single-round-trip observation),
+// run the generation's blocks on the new chain and go on with it.
+func c20Run(t *testing.T, in c20Input, emit func(obs, extra map[string]interface{})) {
 	w := newC20World(t, in.EmptyWl)
 	for _, op := range in.Ops {
 		w.apply(op)
 	}
-	a1 := w.c.App
-	hdr1 := tmproto.Header{Height: a1.LastBlockHeight(), Time: w.c.Time}
+	gens := in.Gens
+	if len(gens) == 0 {
+		gens = []c20Gen{{IH: 2, Dt: in.Dt}}
+	}
+	cur := w.c // the chain being exported
+	for gi, g := range gens {
+		next, ok := c20Generation(t, w, cur, gi, g, emit)
+		if !ok {
+			return
+		}
+		// blocks on the imported chain before it is exported in turn
+		for b := 0; b < abs(g.Blocks)%6; b++ {
+			dt := 5 * time.Second
+			if b == 0 {
+				switch abs(g.Long) % 3 {
+				case 1:
+					dt = 31 * time.Minute
+				case 2:
+					dt = 24*time.Hour + time.Minute
+				}
+			}
+			next.BeginBlock(dt)
+			next.EndBlock()
+		}
+		cur = next
+	}
+}
+
+func c20Generation(t *testing.T, w *c20World, c *Chain, gi int, g c20Gen, emit func(obs, extra map[string]interface{})) (*Chain, bool) {
+	a1 := c.App
+	hdr1 := tmproto.Header{Height: a1.LastBlockHeight(), Time: c.Time}
 	ctx1 := a1.NewContext(true, hdr1)
 	r := newReg(a1.AppCodec())
+	r.S("") // the empty string is always a key (epoch identifiers / addresses are compared with it)
 
 	q := queryPlan{holder: w.eth[0].EthAddr, stores: w.stores, erc20s: w.erc20s}
 	for _, e := range w.eth {
@@ -67,19 +110,34 @@ func c20Run(t *testing.T, in c20Input) (obs map[string]interface{}, extra map[st
 
 	exp1, err := a1.ExportAppStateAndValidators(false, nil, nil)
 	if err != nil {
-		t.Fatalf("export 1: %v", err)
+		t.Fatalf("export (generation %d): %v", gi, err)
 	}
-	importTime := w.c.Time.Add(time.Duration(1+abs(in.Dt)%100000) * time.Second)
+	importTime := c.Time.Add(time.Duration(1+abs(g.Dt)%100000) * time.Second)
+	var ih int64
+	switch abs(g.IH) % 4 {
+	case 1:
+		ih = 1
+	case 2:
+		ih = exp1.Height
+	case 3:
+		ih = exp1.Height + 1000
+	}
+	// the height of the InitChain context (what AddEpochInfo / SetPrice stamp): the initial height when it is > 1, else 0
+	ctxHeight := int64(0)
+	if ih > 1 {
+		ctxHeight = ih
+	}
 	a2 := app.NewNibiruApp(log.NewNopLogger(), tmdb.NewMemDB(), nil, true, sims.EmptyAppOptions{})
 	importPanic := Recover(func() {
 		a2.InitChain(abci.RequestInitChain{ConsensusParams: sims.DefaultConsensusParams, AppStateBytes: exp1.AppState,
-			InitialHeight: exp1.Height, Time: importTime})
+			InitialHeight: ih, Time: importTime})
 		a2.Commit()
 	})
-	obs = map[string]interface{}{"h": exp1.Height, "t": importTime.UnixMilli()}
-	extra = map[string]interface{}{"failed_ops": w.failed, "blocks": a1.LastBlockHeight(), "strings": stringClasses(ctx1, a1), "devgas": w.dg.classes()}
+	obs := map[string]interface{}{"h": ctxHeight, "t": importTime.UnixMilli(), "gen": gi}
+	extra := map[string]interface{}{"failed_ops": w.failed, "blocks": a1.LastBlockHeight(), "strings": stringClasses(ctx1, a1), "devgas": w.dg.classes(),
+		"gen": gi, "ih": abs(g.IH) % 4}
 	e1, canon1 := parseExport(exp1.AppState, a1.AppCodec(), r)
-	obs["dg"] = w.dg.emit(r)
+	obs["dg"] = w.dg.emit(r, gi)
 	if importPanic != "" {
 		// the export cannot be imported at all: reported as a violation by the checker
 		obs["import_ok"] = 0
@@ -90,7 +148,8 @@ func c20Run(t *testing.T, in c20Input) (obs map[string]interface{}, extra map[st
 		obs["tables"] = tables(e1, e1, s1, s1, r)
 		obs["probe"] = J{}
 		r.finish()
-		return
+		emit(obs, extra)
+		return nil, false
 	}
 	obs["import_ok"] = 1
 	hdr2 := tmproto.Header{Height: a2.LastBlockHeight(), Time: importTime}
@@ -102,7 +161,7 @@ func c20Run(t *testing.T, in c20Input) (obs map[string]interface{}, extra map[st
 	q2 := runQueries(ctx2, a2, r, q)
 	exp2, err := a2.ExportAppStateAndValidators(false, nil, nil)
 	if err != nil {
-		t.Fatalf("export 2: %v", err)
+		t.Fatalf("export 2 (generation %d): %v", gi, err)
 	}
 	e2, canon2 := parseExport(exp2.AppState, a2.AppCodec(), r)
 	jeq := map[string]int{}
@@ -142,12 +201,13 @@ func c20Run(t *testing.T, in c20Input) (obs map[string]interface{}, extra map[st
 	r.finish()
 	if os.Getenv("C20_DEBUG") != "" {
 		for m, c1 := range canon1 {
-			if c1 != canon2[m] {
-				t.Logf("DIFF %s\n 1: %.1500s\n 2: %.1500s", m, c1, canon2[m])
+			if c1 != canon2[m] && m != "epochs" {
+				t.Logf("DIFF gen %d %s\n 1: %.1500s\n 2: %.1500s", gi, m, c1, canon2[m])
 			}
 		}
 	}
-	return
+	emit(obs, extra)
+	return &Chain{App: a2, TxCfg: c.TxCfg, Time: importTime, ChainID: c.ChainID}, true
 }
 
 // ---------------------------------------------------------------- generation
@@ -425,7 +485,13 @@ func genC20Case(r *Rng) c20Input {
 			}
 		}
 	}
-	return c20Input{Ops: ops, Dt: r.Range(1, 90000)}
+	// generations: the chain is exported and re-started 1..3 times, each import at its own kind of initial height
+	// (none / 1: InitChain context height 0; the exported height; a later one), after 0..5 blocks on the previous import
+	var gens []c20Gen
+	for i := 1 + r.Pick(3, 4, 2); i > 0; i-- {
+		gens = append(gens, c20Gen{IH: r.Pick(3, 1, 3, 1), Dt: r.Range(1, 90000), Blocks: r.Pick(3, 2, 2, 1, 1, 1), Long: r.Pick(4, 2, 1)})
+	}
+	return c20Input{Ops: ops, Dt: gens[0].Dt, Gens: gens}
 }
 
 func boolInt(b bool) int {
@@ -511,6 +577,10 @@ func c20Openers() []c20Input {
 	}
 	return []c20Input{
 		{Ops: full, Dt: 3600},
+		// second and third generation: import without initial height (epoch start heights re-based to 0), a few blocks, export again
+		{Ops: full, Dt: 3600, Gens: []c20Gen{{IH: 0, Dt: 3600, Blocks: 2}, {IH: 0, Dt: 60, Blocks: 1, Long: 1}, {IH: 2, Dt: 60}}},
+		{Ops: []c20Op{{K: "epoch", A: 0}}, Dt: 10, Gens: []c20Gen{{IH: 0, Dt: 10, Blocks: 2}, {IH: 1, Dt: 10}, {IH: 3, Dt: 10}}},
+		{Ops: []c20Op{}, Dt: 10, Gens: []c20Gen{{IH: 1, Dt: 10}, {IH: 0, Dt: 10, Blocks: 3, Long: 2}, {IH: 0, Dt: 10}}},
 		{Ops: devgas, Dt: 900},
 		{Ops: strs, Dt: 4242},
 		{Ops: shared, Dt: 777},
@@ -527,8 +597,7 @@ func TestC20(t *testing.T) {
 	em := NewEmitter(t, cfg.Out)
 	defer em.Close()
 	run := func(in c20Input) {
-		obs, extra := c20Run(t, in)
-		em.Emit(in, obs, extra)
+		c20Run(t, in, func(obs, extra map[string]interface{}) { em.Emit(in, obs, extra) })
 	}
 	if cfg.Replay != "" {
 		for _, raw := range cfg.ReplayInputs(t) {
